@@ -447,6 +447,24 @@ class IntRowsP:
 
 
 ROWS = z3.ArraySort(z3.IntSort(), z3.ArraySort(z3.IntSort(), z3.IntSort()))
+INTARR = z3.ArraySort(z3.IntSort(), z3.IntSort())
+
+
+class StrSeqP:
+    """list[str]: length + (index -> characters) + (index -> length); elements are read as strings over those arrays"""
+
+    __slots__ = ("len", "chars", "lens", "name")
+
+    def __init__(self, ln, chars, lens, name):
+        self.len, self.chars, self.lens, self.name = ln, chars, lens, name
+
+    def copy(self):
+        return StrSeqP(self.len, self.chars, self.lens, self.name)
+
+    def elem(self, i):
+        row = z3.Select(self.chars, i)
+        return VStr("var", (lambda k, _r=row: z3.Select(_r, k)), z3.Select(self.lens, i), f"{self.name}[{z3.simplify(i)}]")
+
 SEQ = z3.SeqSort(z3.IntSort())
 
 
